@@ -364,6 +364,12 @@ def check_routes(ctx, rng, fe, variant=0):
                 the_app.route(p)(lambda n, a, reply, c: None)
             else:
                 the_app.route(p)(lambda n, pr, a: None)
+        # a handler merely attached (no route(), no register()) is no request for a route: nothing is sent for its prefix
+        if fe == 'v2':
+            the_app.attach_handler([C(b'only'), C(b'attached')], lambda n, a, reply, c: None)
+        else:
+            the_app.set_interest_filter([C(b'only'), C(b'attached')], lambda n, pr, a: None)
+        ctx.event('handler-attached-without-route-before-connecting')
         counts = []
         stamps = []
         for conn in range(3 if fast else 2):
